@@ -439,7 +439,18 @@ func (m *Model) ruleHLCSeed(r *Results, rule string) {
 						}
 						nStores++
 						if stripConv(x.Val) != ssa.Value(tracked) {
-							identity = false
+							// (or the larger of the given value and the mark: `max(old, given)`)
+							viaMax := false
+							if call, ok := stripConv(x.Val).(*ssa.Call); ok && m.isMaxHelper(call.Common().StaticCallee()) {
+								for _, a := range call.Common().Args {
+									if stripConv(a) == ssa.Value(tracked) {
+										viaMax = true
+									}
+								}
+							}
+							if !viaMax {
+								identity = false
+							}
 						}
 					case ssa.CallInstruction:
 						callee := x.Common().StaticCallee()
@@ -565,6 +576,18 @@ func (m *Model) ruleMONO(r *Results) {
 					}
 				}
 			}
+			// a value that is above the old mark by construction: old+1, the larger of two values one
+			// of which is, a phi of such values (an edge value may also be guarded by `x > y`)
+			switch m.aboveOld(val, st.Block(), hw, 0) {
+			case 2:
+				r.ok(rule, key+" = value above old by construction", pos, "old+1, max(...) or a guarded selection of such values")
+				continue
+			case 1:
+				if !returnsStamp {
+					r.ok(rule, key+" = value not below old by construction", pos, "seeding never lowers the mark")
+					continue
+				}
+			}
 			// stored value x: find the controlling comparison between old and x
 			strict, nonstrict := false, false
 			for _, ct := range controllingConds(fn, st.Block()) {
@@ -605,6 +628,48 @@ func (m *Model) ruleMONO(r *Results) {
 				r.bad(rule, key+" = x under old<=x", pos, "a timestamp-returning function stores a value that may EQUAL the previous high-water mark: two callers can receive the same CAS when the clock reading equals the last CAS")
 			default:
 				r.bad(rule, key+" unguarded", pos, "store to the clock's high-water mark that is neither old+1 nor guarded by a comparison with the old value: the mark can go backwards")
+			}
+		}
+		// the stamp handed out is the value left in the high-water field: the field means "last
+		// value issued", which is what the seeding functions store into it (a function that hands
+		// out the old value and leaves old+1 behind turns it into "next value to issue", and a
+		// clock seeded with the last persisted CAS then issues that CAS again)
+		if returnsStamp && fn == a.ClockNow {
+			for _, ret := range returnsOf(fn) {
+				if len(ret.Results) == 0 {
+					continue
+				}
+				res := stripConv(ret.Results[0])
+				// (a result spilled into a cell because of the deferred unlock: what this return stored there)
+				if ld, ok := res.(*ssa.UnOp); ok && ld.Op == token.MUL {
+					if al, ok := ld.X.(*ssa.Alloc); ok {
+						instrs := ret.Block().Instrs
+						for i := len(instrs) - 1; i >= 0; i-- {
+							if st, ok := instrs[i].(*ssa.Store); ok && st.Addr == ssa.Value(al) {
+								res = stripConv(st.Val)
+								break
+							}
+						}
+					}
+				}
+				good := false
+				if _, f, ok := fieldLoad(res); ok && f == hw {
+					good = true
+					ld := res.(ssa.Instruction)
+					for _, st := range stores {
+						if forwardReachable(ld, st) {
+							good = false
+						}
+					}
+				} else {
+					for _, st := range stores {
+						// or the very value the last store wrote
+						if sameValue(stripConv(st.Val), res) && st.Block() == ret.Block() {
+							good = true
+						}
+					}
+				}
+				r.check(good, rule, m.declName(fn)+" / the stamp returned is the mark left behind", m.instrPos(ret), "the value returned is read from the high-water field after its last update", "the value returned is not the value left in the high-water field (the field is updated again after the returned value was taken): the field no longer holds the last stamp issued, so a clock seeded from the last persisted CAS hands that CAS out a second time")
 			}
 		}
 		// lock discipline: Lock + deferred Unlock on the clock's own mutex before the first store
@@ -1187,14 +1252,23 @@ func (m *Model) ruleQUEUE(r *Results) {
 		if wrapped[fn] {
 			out["Lock"], out["Unlock"] = true, true
 		}
-		m.eachCall(fn, func(c ssa.CallInstruction) {
-			if f := c.Common().StaticCallee(); f != nil && f.Pkg != nil && (f.Pkg.Pkg.Path() == "container/list" || f.Pkg.Pkg.Path() == "sync") {
-				out[f.Name()] = true
-			}
-			if c.Common().IsInvoke() && isNamed(c.Common().Value.Type(), "sync", "Locker") {
-				out[c.Common().Method.Name()] = true
-			}
-		})
+		var gather func(g *ssa.Function, depth int)
+		gather = func(g *ssa.Function, depth int) {
+			m.eachCall(g, func(c ssa.CallInstruction) {
+				f := c.Common().StaticCallee()
+				if f != nil && f.Pkg != nil && (f.Pkg.Pkg.Path() == "container/list" || f.Pkg.Pkg.Path() == "sync") {
+					out[f.Name()] = true
+				}
+				if c.Common().IsInvoke() && isNamed(c.Common().Value.Type(), "sync", "Locker") {
+					out[c.Common().Method.Name()] = true
+				}
+				// (small helpers of the queue that are called with the lock held: `q.removeOldest()`)
+				if f != nil && m.inPkg(f) && depth < 1 && len(f.Blocks) > 0 && len(f.Blocks) <= 3 {
+					gather(f, depth+1)
+				}
+			})
+		}
+		gather(fn, 0)
 		return out
 	}
 	pc, lc, cc := listCalls(push[0]), listCalls(pull[0]), listCalls(cls[0])
@@ -1228,8 +1302,17 @@ func (m *Model) ruleQUEUE(r *Results) {
 		} else {
 			var deq ssa.CallInstruction
 			m.eachCall(pull[0], func(c ssa.CallInstruction) {
-				if f := c.Common().StaticCallee(); f != nil && f.Pkg != nil && f.Pkg.Pkg.Path() == "container/list" && f.Name() == "Remove" {
+				f := c.Common().StaticCallee()
+				if f != nil && f.Pkg != nil && f.Pkg.Pkg.Path() == "container/list" && f.Name() == "Remove" {
 					deq = c
+				}
+				// (or the call of a small helper that removes the element)
+				if f != nil && m.inPkg(f) && len(f.Blocks) > 0 && len(f.Blocks) <= 3 && deq == nil {
+					m.eachCall(f, func(c2 ssa.CallInstruction) {
+						if g := c2.Common().StaticCallee(); g != nil && g.Pkg != nil && g.Pkg.Pkg.Path() == "container/list" && g.Name() == "Remove" {
+							deq = c
+						}
+					})
 				}
 			})
 			tested := false
@@ -1337,6 +1420,17 @@ func (m *Model) ruleQUEUE(r *Results) {
 		// ... and every use of the list and every wake-up happens while the lock is held: a
 		// signal sent (or a length read) after the unlock can fall between the puller's test and
 		// its Wait, and is lost
+		// (the state close() sets - the list pointer - is read and written under the lock as well)
+		stateFields := map[*types.Var]bool{}
+		for _, b := range cls[0].Blocks {
+			for _, in := range b.Instrs {
+				if st, ok := in.(*ssa.Store); ok {
+					if fa, ok := st.Addr.(*ssa.FieldAddr); ok && fieldOf(fa) != nil {
+						stateFields[fieldOf(fa)] = true
+					}
+				}
+			}
+		}
 		unheldIn := map[int]bool{0: !wrapped[fn]}
 		seen := map[int]bool{}
 		bad := ""
@@ -1351,6 +1445,20 @@ func (m *Model) ruleQUEUE(r *Results) {
 			seen[key] = true
 			un := unheldIn[b.Index]
 			for _, ins := range b.Instrs {
+				if un {
+					var addr ssa.Value
+					switch x := ins.(type) {
+					case *ssa.UnOp:
+						if x.Op == token.MUL {
+							addr = x.X
+						}
+					case *ssa.Store:
+						addr = x.Addr
+					}
+					if fa, ok := addr.(*ssa.FieldAddr); ok && stateFields[fieldOf(fa)] {
+						bad = "an access to the queue's " + fieldOf(fa).Name() + " field at " + m.instrPos(ins)
+					}
+				}
 				c, ok := ins.(ssa.CallInstruction)
 				if !ok {
 					continue
@@ -1365,7 +1473,7 @@ func (m *Model) ruleQUEUE(r *Results) {
 					continue
 				}
 				if f := c.Common().StaticCallee(); f != nil && f.Pkg != nil && (f.Pkg.Pkg.Path() == "container/list" || f.Pkg.Pkg.Path() == "sync" && (f.Name() == "Signal" || f.Name() == "Broadcast" || f.Name() == "Wait")) && un {
-					bad = f.Name() + " at " + m.instrPos(c)
+					bad = "a call of " + f.Name() + " at " + m.instrPos(c)
 				}
 			}
 			for _, s := range b.Succs {
@@ -1375,7 +1483,7 @@ func (m *Model) ruleQUEUE(r *Results) {
 				work = append(work, s)
 			}
 		}
-		r.check(bad == "", rule, m.declName(fn)+" / list and wake-ups under the lock", m.pos(fn.Pos()), "every list operation and every Signal/Broadcast/Wait happens with the queue lock held", "the queue method calls "+bad+" where the queue lock may not be held: a wake-up sent outside the critical section that changed the list can be lost (the puller then sleeps with an event queued), and the list is read while another goroutine changes it")
+		r.check(bad == "", rule, m.declName(fn)+" / list and wake-ups under the lock", m.pos(fn.Pos()), "every list operation and every Signal/Broadcast/Wait happens with the queue lock held", "the queue method makes "+bad+" where the queue lock may not be held: a wake-up sent outside the critical section that changed the list can be lost (the puller then sleeps with an event queued), and the list is read while another goroutine changes it")
 	}
 }
 
@@ -2255,4 +2363,137 @@ func (m *Model) readsFieldValue(v ssa.Value, f *types.Var, depth int) bool {
 		}
 	}
 	return false
+}
+
+// isMaxHelper: a package function of two parameters of one type that returns the larger one:
+// one comparison of the two parameters, and each return hands back the parameter that the
+// comparison found larger (or not smaller).
+func (m *Model) isMaxHelper(f *ssa.Function) bool {
+	if f == nil || !m.inPkg(f) || len(f.Blocks) == 0 || len(f.Params) != 2 || f.Signature.Results().Len() != 1 {
+		return false
+	}
+	a, b := f.Params[0], f.Params[1]
+	ifs := allIfs(f)
+	if len(ifs) != 1 {
+		return false
+	}
+	cd := condOf(ifs[0])
+	x, y := stripConv(cd.X), stripConv(cd.Y)
+	if !(x == ssa.Value(a) && y == ssa.Value(b) || x == ssa.Value(b) && y == ssa.Value(a)) {
+		return false
+	}
+	var bigOnTrue ssa.Value
+	switch cd.Op {
+	case token.GTR, token.GEQ:
+		bigOnTrue = x
+	case token.LSS, token.LEQ:
+		bigOnTrue = y
+	default:
+		return false
+	}
+	other := ssa.Value(a)
+	if bigOnTrue == ssa.Value(a) {
+		other = b
+	}
+	tEdge, fEdge := cd.succWhen(true), cd.succWhen(false)
+	for _, ret := range returnsOf(f) {
+		res := stripConv(ret.Results[0])
+		if phi, ok := res.(*ssa.Phi); ok {
+			for i, e := range phi.Edges {
+				p := phi.Block().Preds[i]
+				want := other
+				if p == tEdge || tEdge.Dominates(p) && tEdge != fEdge && len(tEdge.Preds) == 1 {
+					want = bigOnTrue
+				} else if p == ifs[0].Block() && phi.Block() == tEdge {
+					want = bigOnTrue
+				}
+				if stripConv(e) != want {
+					return false
+				}
+			}
+			continue
+		}
+		want := other
+		if (ret.Block() == tEdge || tEdge.Dominates(ret.Block())) && len(tEdge.Preds) == 1 {
+			want = bigOnTrue
+		}
+		if res != want {
+			return false
+		}
+	}
+	return true
+}
+
+// aboveOld: 2 = v is strictly above the current value of the clock field hw, 1 = not below it,
+// 0 = unknown. `at` is the block at whose end v is used.
+func (m *Model) aboveOld(v ssa.Value, at *ssa.BasicBlock, hw *types.Var, depth int) int {
+	v = stripConv(v)
+	if depth > 5 {
+		return 0
+	}
+	if _, f, ok := fieldLoad(v); ok && f == hw {
+		return 1
+	}
+	switch x := v.(type) {
+	case *ssa.BinOp:
+		if x.Op == token.ADD {
+			for _, pair := range [][2]ssa.Value{{x.X, x.Y}, {x.Y, x.X}} {
+				if k, ok := pair[1].(*ssa.Const); ok && k.Value != nil && k.Uint64() >= 1 && m.aboveOld(pair[0], at, hw, depth+1) >= 1 {
+					return 2
+				}
+			}
+		}
+	case *ssa.Call:
+		if m.isMaxHelper(x.Common().StaticCallee()) {
+			best := 0
+			for _, a := range x.Common().Args {
+				if r := m.aboveOld(a, at, hw, depth+1); r > best {
+					best = r
+				}
+			}
+			return best
+		}
+	case *ssa.Phi:
+		worst := 2
+		for i, e := range x.Edges {
+			p := x.Block().Preds[i]
+			r := m.aboveOld(e, p, hw, depth+1)
+			// an edge value guarded by `e > y` (or >=) with y above old
+			for _, ct := range controllingConds(x.Parent(), p) {
+				cd := condOf(ct.If)
+				if cd.Op == token.ILLEGAL || cd.Y == nil {
+					continue
+				}
+				taken := ct.Branch
+				if cd.Neg {
+					taken = !taken
+				}
+				cx, cy := stripConv(cd.X), stripConv(cd.Y)
+				op := cd.Op
+				var y ssa.Value
+				if cx == stripConv(e) {
+					y = cy
+				} else if cy == stripConv(e) {
+					y = cx
+					op = map[token.Token]token.Token{token.LSS: token.GTR, token.GTR: token.LSS, token.LEQ: token.GEQ, token.GEQ: token.LEQ}[op]
+				} else {
+					continue
+				}
+				ry := m.aboveOld(y, ct.If.Block(), hw, depth+1)
+				switch {
+				case (op == token.GTR && taken || op == token.LEQ && !taken) && ry >= 1:
+					if r < 2 {
+						r = 2
+					}
+				case (op == token.GEQ && taken || op == token.LSS && !taken) && ry > r:
+					r = ry
+				}
+			}
+			if r < worst {
+				worst = r
+			}
+		}
+		return worst
+	}
+	return 0
 }
